@@ -69,7 +69,10 @@ let hex_of_bytes (bs : n list) =
   end
 
 let out = Buffer.create 65536
-let emit s = Buffer.add_string out s; Buffer.add_char out '\n'
+let spec_out = Buffer.create 65536
+let spec_pending = ref "-"
+let emit s = Buffer.add_string out s; Buffer.add_char out '\n';
+  Buffer.add_string spec_out !spec_pending; Buffer.add_char spec_out '\n'; spec_pending := "-" 
 
 (* ---------- bloom objects ---------- *)
 let blooms : (string, bloom) Hashtbl.t = Hashtbl.create 16
@@ -125,34 +128,42 @@ let meta_name n = match int_of_n n with 0 -> "m0" | 1 -> "m1" | 2 -> "m2" | 3 ->
 let err_name = function
   | EActiveBlobExists -> "ActiveBlobExists" | EActiveBlobDoesntExist -> "ActiveBlobDoesntExist"
   | EUninitialized -> "Uninitialized" | EIndex -> "Index" | EActiveBlobNotSet -> "ActiveBlobNotSet"
-  | ENoStorage -> "NoStorage"
+  | ENoStorage -> "NoStorage" | EAlreadyOpen -> "AlreadyOpen"
 let rec_str r =
   Printf.sprintf "(%s,%d,%s,%s:%s)" (dec_of_n r.r_ts) (if r.r_del then 1 else 0) (meta_name r.r_meta)
     (dec_of_n r.r_dlen) (dec_of_n r.r_dseed)
 
-let do_op name o =
-  let (s', r) = step_q (n_of_int !st_k) !st_cfg !st o in
-  st := s';
+let fmt_out name r =
   match r with
-  | RErr ENoStorage -> emit (name ^ " NoStorage")
-  | RErr e -> emit (name ^ " Err " ^ err_name e)
-  | RUnit -> emit (name ^ (match name with
+  | RErr ENoStorage -> (name ^ " NoStorage")
+  | RErr e -> (name ^ " Err " ^ err_name e)
+  | RUnit -> (name ^ (match name with
       | "bg_close" | "bg_create" | "bg_restore" | "force_update" | "free_excess" -> " sent"
       | "sleep" | "drop" -> "" | _ -> " ok"))
-  | RNum n -> emit (name ^ " " ^ (if name = "rmindex" then (if int_of_n n = 1 then "ok" else "absent") else dec_of_n n))
+  | RNum n -> (name ^ " " ^ (if name = "rmindex" then (if int_of_n n = 1 then "ok" else "absent") else dec_of_n n))
   | RRead (Found r) ->
-    if name = "C" then emit (name ^ " Found " ^ dec_of_n r.r_ts)
-    else emit (Printf.sprintf "%s Found %s %s" name (dec_of_n r.r_dlen) (dec_of_n r.r_dseed))
-  | RRead (Deleted t) -> emit (name ^ " Deleted " ^ dec_of_n t)
-  | RRead NotFound -> emit (name ^ " NotFound")
-  | RList l -> emit (name ^ " [" ^ String.concat " " (List.map rec_str l) ^ "]")
+    if name = "C" then (name ^ " Found " ^ dec_of_n r.r_ts)
+    else (Printf.sprintf "%s Found %s %s" name (dec_of_n r.r_dlen) (dec_of_n r.r_dseed))
+  | RRead (Deleted t) -> (name ^ " Deleted " ^ dec_of_n t)
+  | RRead NotFound -> (name ^ " NotFound")
+  | RList l -> (name ^ " [" ^ String.concat " " (List.map rec_str l) ^ "]")
   | RCounts (records, det, act, blobs, next, corr, has) ->
-    emit (Printf.sprintf "counts records=%s detailed=[%s] active=%s blobs=%s next=%s corrupted=%s has_active=%d"
+    (Printf.sprintf "counts records=%s detailed=[%s] active=%s blobs=%s next=%s corrupted=%s has_active=%d"
             (dec_of_n records)
             (String.concat "," (List.map (fun (i, n) -> dec_of_n i ^ ":" ^ dec_of_n n) det))
             (match act with Some n -> dec_of_n n | None -> "none")
             (dec_of_n blobs) (dec_of_n next) (dec_of_n corr) (if has then 1 else 0))
-  | RAlive b -> emit (name ^ (if b then " alive" else " dead"))
+  | RAlive b -> (name ^ (if b then " alive" else " dead"))
+
+let do_op name o =
+  let (s', r) = step_q (n_of_int !st_k) !st_cfg !st o in
+  (* the specification's answer, evaluated on the state the query ran in; the ghost flag of the
+     known class F2 is reported so that the check can classify *)
+  (match spec_answer !st o with
+   | Some sr when !st.s_open -> spec_pending := (if !st.s_f2 then "f2 " else "ok ") ^ fmt_out name sr
+   | _ -> ());
+  st := s';
+  emit (fmt_out name r)
 
 let key_of s = n_of_hex s
 
@@ -199,9 +210,28 @@ let storage_handlers = [
   ("close", (fun _ -> do_op "close" OClose));
   ("drop", (fun _ -> do_op "drop" ODrop));
   ("rmindex", (function [id] -> do_op "rmindex" (ORmIndex (n_of_string id)) | _ -> failwith "rmindex args"));
+  ("filehex", (function
+       | ["blob"; id] ->
+         let id = int_of_string id in
+         let all = closed_blobs !st @ (match !st.s_active with Some b -> [b] | None -> []) in
+         (match List.filter (fun b -> int_of_n b.b_id = id) all with
+          | b :: _ -> emit ("filehex " ^ hex_of_bytes (blob_file_bytes (n_of_int !st_k) b.b_recs))
+          | [] -> emit "filehex absent")
+       | _ -> emit "*"));
+  ("flip", (fun _ -> emit "*"));
+  ("patch", (fun _ -> emit "*"));
+  ("trunc", (fun _ -> emit "*"));
+  ("ls", (fun _ -> emit "*"));
+  ("disk", (fun _ -> emit "*"));
+  ("fsync", (fun _ -> emit "fsync ok"));
+  ("offload", (fun _ -> emit "*"));
+  ("CF", (fun _ -> emit "*"));
+  ("CFS", (fun _ -> emit "*"));
 ]
 let () = handlers := storage_handlers @ (List.filter (fun (n, _) -> n <> "cfg") !handlers)
 
+(* after the script damages a file byte-wise the L3 model no longer predicts outcomes: wildcard *)
+let tainted = ref false
 let run_script path outpath =
   let ic = open_in path in
   (try
@@ -211,7 +241,9 @@ let run_script path outpath =
          let toks = List.filter (fun s -> s <> "") (String.split_on_char ' ' line) in
          match toks with
          | [] -> ()
+         | c :: args when !tainted && c <> "cfg" -> emit "*"
          | c :: args ->
+           if c = "flip" || c = "patch" || c = "trunc" then tainted := true;
            (match List.assoc_opt c !handlers with
             | Some h -> (try h args with
                 | Not_found -> emit ("MODEL-ERROR not_found: " ^ line)
@@ -222,14 +254,16 @@ let run_script path outpath =
    with End_of_file -> ());
   close_in ic;
   let oc = open_out outpath in
-  Buffer.output_buffer oc out; close_out oc; Buffer.clear out
+  Buffer.output_buffer oc out; close_out oc; Buffer.clear out;
+  let oc = open_out (outpath ^ ".spec") in
+  Buffer.output_buffer oc spec_out; close_out oc; Buffer.clear spec_out
 
 let main () =
   (* usage: driver script out [script out ...] *)
   let n = Array.length Sys.argv in
   let i = ref 1 in
   while !i + 1 < n do
-    Hashtbl.reset blooms; Hashtbl.reset raws; st := init_storage; st_k := 4; st_lazy := false;
+    tainted := false; Hashtbl.reset blooms; Hashtbl.reset raws; st := init_storage; st_k := 4; st_lazy := false;
     st_cfg := { c_dup = true; c_maxrec = n_of_int 1000000; c_maxsize = n_of_int 1000000000 };
     run_script Sys.argv.(!i) Sys.argv.(!i + 1);
     i := !i + 2
